@@ -23,6 +23,7 @@ empty combination raises `IndexError`.
 -/
 import PauLieVerif.Model.PS
 import PauLieVerif.Model.Matrix
+import PauLieVerif.Model.Parser
 
 namespace PauLie
 
@@ -66,6 +67,18 @@ namespace Lin
 /-- `PauliStringLinear(combinations)`: every term's string is re-parsed from its
 text, `PauliString(pauli_str=str(c[1]))`. -/
 def mk (l : List (GR × PS)) : Lin := l.map (fun t => (t.1, PS.ofLetters t.2.letters))
+
+/-- `PauliStringLinear(combinations)` from raw texts: every term's text goes through the
+parser (`PauliString(pauli_str=str(c[1]))`, dense or positional notation such as
+`Z_2s3`); the first ill-formed text raises `ValueError`.  (The width of the object's
+own inherited bit register, `len(str(first raw term))`, is not observable through
+any modelled operation: `get_size()` reads the first stored term.) -/
+def ofTexts : List (GR × List Char) → Except Err Lin
+  | [] => .ok []
+  | t :: l => do
+    let p ← Parser.mkPS t.2
+    let r ← ofTexts l
+    return (t.1, p) :: r
 
 /-- `get_size()`: length of the first term's string, `0` for the empty list. -/
 def getSize : Lin → Nat
